@@ -373,7 +373,14 @@ func slogFunc(recv, name string, extra map[string]shim) transFunc {
 // sink registry, the OS opener, Close, the closures handed back and the standard logger's state are recorded intrinsics
 // or pseudo-fields; what is proved is WHICH of them are called, in what order, on which path.
 var openTypes = map[string]string{"zapcore.WriteSyncer": "opt:Sink", "io.Closer": "opt:Sink", "Sink": "opt:Sink", "func()": "opt:Closure",
-	"*url.URL": "ptr:struct:URL", "*Logger": "Logger", "zapcore.Level": "i8"}
+	"*url.URL": "ptr:struct:URL", "*Logger": "Logger", "zapcore.Level": "i8", "zapcore.Encoder": "opt:Encoder", "Option": "Option", "Field": "Field"}
+
+// Build returns a nil *Logger on its error paths
+func buildTypes(f transFunc) transFunc {
+	f.types = merge1(f.types, map[string]string{"*Logger": "opt:Logger"})
+	f.comparable = []string{"AtomicLevel"} // a struct holding one pointer: == is pointer equality
+	return f
+}
 var openStructs = map[string][]fieldSpec{
 	"URL": {{"Scheme", "string"}, {"User", "opt:Userinfo"}, {"Fragment", "string"}, {"RawQuery", "string"}, {"Path", "string"},
 		{"Rest", "URLRest"}},
@@ -675,10 +682,57 @@ var transSpecs = []transSpec{
 			"_sinkRegistry.newSink": {kind: "extstmt", f: "sinkRegistry.newSink", res: []string{"opt:Sink", "error"}, trace: "#ev"},
 			"opt:Sink.Close":            {kind: "extstmt", f: "Sink.Close", res: []string{"error"}, trace: "#ev"},
 		}),
+		openFunc("writer.go", "", "CombineWriteSyncers", nil, map[string]string{"io.Discard": "val:Writer|.list [.int 0]"},
+			map[string]shim{
+				"zapcore.AddSync":             {kind: "ext", f: "zapcore.AddSync", res: []string{"opt:Sink"}},
+				"zapcore.Lock":                {kind: "ext", f: "zapcore.Lock", res: []string{"opt:Sink"}},
+				"zapcore.NewMultiWriteSyncer": {kind: "ext", f: "zapcore.NewMultiWriteSyncer", res: []string{"opt:Sink"}},
+			}),
+		openFunc("writer.go", "", "Open", nil, nil, map[string]shim{
+			"open":                {kind: "fun", f: "openAll", res: []string{"[]opt:Sink", "opt:Closure", "error"}},
+			"CombineWriteSyncers": {kind: "fun", f: "CombineWriteSyncers", res: []string{"opt:Sink"}},
+		}),
+		openFunc("config.go", "Config", "buildEncoder",
+			map[string]fieldSpec{"Encoding": {"encoding", "string"}, "EncoderConfig": {"encoderConfig", "EncoderConfig"}}, nil,
+			map[string]shim{"newEncoder": {kind: "extstmt", f: "newEncoder", res: []string{"opt:Encoder", "error"}, trace: "#ev"}}),
+		openFunc("config.go", "Config", "buildOptions",
+			map[string]fieldSpec{"Development": {"development", "bool"}, "DisableCaller": {"disableCaller", "bool"},
+				"DisableStacktrace": {"disableStacktrace", "bool"}, "Sampling": {"sampling", "opt:SamplingConfig"},
+				"InitialFields": {"initialFields", "map:string:any"}},
+			map[string]string{"ErrorLevel": "val:i8|.int 2", "WarnLevel": "val:i8|.int 1"},
+			map[string]shim{
+				"ErrorOutput":   {kind: "ext", f: "ErrorOutput", res: []string{"Option"}},
+				"Development":   {kind: "ext", f: "Development", res: []string{"Option"}},
+				"AddCaller":     {kind: "ext", f: "AddCaller", res: []string{"Option"}},
+				"AddStacktrace": {kind: "ext", f: "AddStacktrace", res: []string{"Option"}},
+				"WrapCore":      {kind: "ext", f: "WrapCore", res: []string{"Option"}},
+				"Fields":        {kind: "ext", f: "Fields", res: []string{"Option"}},
+				"Any":           {kind: "ext", f: "Any", res: []string{"Field"}},
+				"sort.Strings":  {kind: "mutarg:0", f: "sort.Strings"},
+				"map:string:any.keys": {kind: "ext", f: "InitialFields.keys", res: []string{"[]string"}},
+				"map:string:any[k]":   {kind: "ext", f: "InitialFields.get", res: []string{"any"}},
+			}),
+		buildTypes(openFunc("config.go", "Config", "Build",
+			map[string]fieldSpec{"Encoding": {"encoding", "string"}, "EncoderConfig": {"encoderConfig", "EncoderConfig"},
+				"OutputPaths": {"outputPaths", "[]string"}, "ErrorOutputPaths": {"errorOutputPaths", "[]string"},
+				"Level": {"level", "AtomicLevel"},
+				// read by buildOptions
+				"Development": {"development", "bool"}, "DisableCaller": {"disableCaller", "bool"},
+				"DisableStacktrace": {"disableStacktrace", "bool"}, "Sampling": {"sampling", "opt:SamplingConfig"},
+				"InitialFields": {"initialFields", "map:string:any"}},
+			map[string]string{"AtomicLevel{}": "val:AtomicLevel|.list []"},
+			map[string]shim{
+				"recv.buildEncoder": {kind: "fun", f: "buildEncoder", res: []string{"opt:Encoder", "error"}},
+				"recv.openSinks":    {kind: "fun", f: "openSinks", res: []string{"opt:Sink", "opt:Sink", "error"}},
+				"recv.buildOptions": {kind: "funpure", f: "buildOptions", res: []string{"[]Option"}},
+				"zapcore.NewCore":   {kind: "ext", f: "zapcore.NewCore", res: []string{"Core"}},
+				"New":               {kind: "ext", f: "zap.New", res: []string{"opt:Logger"}},
+				"opt:Logger.WithOptions": {kind: "ext", f: "Logger.WithOptions", res: []string{"opt:Logger"}},
+			})),
 		openFunc("config.go", "Config", "openSinks",
 			map[string]fieldSpec{"OutputPaths": {"outputPaths", "[]string"}, "ErrorOutputPaths": {"errorOutputPaths", "[]string"}}, nil,
 			map[string]shim{
-				"Open":          {kind: "extstmt", f: "zap.Open", res: []string{"opt:Sink", "opt:Closure", "error"}, trace: "#ev"},
+				"Open":          {kind: "fun", f: "Open", res: []string{"opt:Sink", "opt:Closure", "error"}},
 				"opt:Closure()": {kind: "extstmtfn", f: "Closure.call", trace: "#ev"},
 			}),
 		openFunc("sink.go", "sinkRegistry", "newFileSinkFromPath", nil,
